@@ -1,1 +1,84 @@
-From SV Require Import C01.SatSpec.
+(* Property C01: SAT models are models - every assignment solve_sat hands back satisfies every input
+   clause and every assumption; several solutions are pairwise distinct.
+   Shape G: theorems about every event trace accepted by the guarded machine C01/Machine.v (the
+   check replays each real call's trace through it inside coqc).  `chk` = whether the RUP guards of
+   C02 are evaluated; C01 holds either way.  Only statements + `exact <lemma>`; proofs in C01/*.v. *)
+From Coq Require Import List ZArith Bool.
+Import ListNotations.
+From SV Require Import C01.SatSpec C01.Rup C01.Machine.
+From SV Require C01.SatLemmas C01.MachineInv C01.MachineThms.
+Open Scope Z_scope.
+
+(* every recorded model satisfies all clauses and all assumptions - whatever restarts, backjumps,
+   clause-database reductions or blocking clauses happened (they are invisible to the guards) *)
+Theorem C01_models : forall chk N A limit evs s, run chk N A limit evs = Some s ->
+  forall m, In m (sols s) -> models (asg_of m) N /\ agrees (asg_of m) A.
+Proof. exact MachineThms.models_thm. Qed.
+Print Assumptions C01_models.
+
+(* ... and assigns exactly the variables 1..n_vars *)
+Theorem C01_total : forall chk N A limit evs s, run chk N A limit evs = Some s ->
+  forall m, In m (sols s) -> map Z.abs m = zseq 1 (Z.to_nat (max_var N)).
+Proof. exact MachineThms.total_thm. Qed.
+Print Assumptions C01_total.
+
+(* pairwise distinct, as dicts and as assignments *)
+Theorem C01_distinct : forall chk N A limit evs s, run chk N A limit evs = Some s ->
+  NoDup (sols s)
+  /\ forall m m', In m (sols s) -> In m' (sols s) -> m <> m' -> exists v, asg_of m v <> asg_of m' v.
+Proof. exact MachineThms.distinct_thm. Qed.
+Print Assumptions C01_distinct.
+
+(* the Result fields are functions of the accepted trace: `solution` is a recorded model (the last
+   one on the solution_limit route, all_solutions[0] otherwise - see Machine.result_of), objective is
+   its number of assigned variables, `solutions` is the list of recorded models in order *)
+Theorem C01_result_is_trace : forall chk N A limit evs s r, run chk N A limit evs = Some s ->
+  result_of limit s = Some r ->
+  (forall m, r_solution r = Some m -> In m (sols s) /\ r_objective r = Z.of_nat (length m))
+  /\ (r_solution r = None -> sols s = [] /\ r_objective r = 0 /\ r_solutions r = None)
+  /\ (forall l, r_solutions r = Some l -> l = rev (sols s) /\ r_solution r <> None).
+Proof. exact MachineThms.result_is_trace_thm. Qed.
+Print Assumptions C01_result_is_trace.
+
+(* hence everything handed back was checked *)
+Theorem C01_result_sound : forall chk N A limit evs s r, run chk N A limit evs = Some s ->
+  result_of limit s = Some r ->
+  (forall m, r_solution r = Some m -> models (asg_of m) N /\ agrees (asg_of m) A)
+  /\ (forall l, r_solutions r = Some l ->
+        NoDup l /\ forall m, In m l -> models (asg_of m) N /\ agrees (asg_of m) A).
+Proof. exact MachineThms.result_sound_thm. Qed.
+Print Assumptions C01_result_sound.
+
+(* the boolean checker applied to implementation results by the harness (machine-independent) *)
+Theorem C01_spec_check_sound : forall N A r, spec_check N A r = true ->
+  (forall m, r_solution r = Some m -> models (asg_of m) N /\ agrees (asg_of m) A)
+  /\ (forall l, r_solutions r = Some l ->
+        NoDup l /\ forall m, In m l -> models (asg_of m) N /\ agrees (asg_of m) A).
+Proof. exact MachineThms.spec_check_sound. Qed.
+Print Assumptions C01_spec_check_sound.
+
+(* ---- non-vacuity: real traces of /repo (solve_sat with assumptions=[-2], solution_limit=3, luby_factor=1) ---- *)
+Definition ex_N : cnf := [[1; 2; 3]; [-1; -2]; [-2; -3]; [1; -3; 4]; [-4; 2; 1]; [-1; -4]].
+Definition ex_evs : list event :=
+  [EInit 4 [] [] [-2]; ESolution [1; -2; 3; -4]; ELearn [-1; 2; -3; 4] true;
+   ESolution [1; -2; -3; -4]; ELearn [-1; 2; 3; 4] true; ELearn [-1; 2] false; EVerdict OPTIMAL].
+
+Example C01_nonvacuous_trace :
+  valid_input ex_N [-2] = true
+  /\ exists s, run true ex_N [-2] 3 ex_evs = Some s /\ length (sols s) = 2%nat
+     /\ result_of 3 s = Some (mkResult OPTIMAL (Some [1; -2; 3; -4]) 4 (Some [[1; -2; 3; -4]; [1; -2; -3; -4]])).
+Proof. vm_compute. split; [reflexivity|]. eexists. repeat split. Qed.
+
+(* a non-model is rejected, and so is a repeated model *)
+Example C01_nonvacuous_rejects :
+  run false ex_N [-2] 3 [EInit 4 [] [] [-2]; ESolution [1; -2; 3; 4]] = None
+  /\ run false ex_N [-2] 3 [EInit 4 [] [] [-2]; ESolution [1; -2; 3; -4]; ELearn [-1; 2; -3; 4] true;
+                           ESolution [1; -2; 3; -4]] = None
+  /\ run false ex_N [-2] 3 [EInit 4 [] [] [-2]; ESolution [1; 2; 3; -4]] = None.
+Proof. vm_compute. repeat split. Qed.
+
+(* pure literals + solution_limit = 1: Result.solutions stays None *)
+Example C01_nonvacuous_limit1 :
+  exists s, run true [[1; 2]; [3; -4]] [] 1 [EInit 4 [1; 2; 3; -4] [] []; ESolution [1; 2; 3; -4]; EVerdict OPTIMAL] = Some s
+    /\ result_of 1 s = Some (mkResult OPTIMAL (Some [1; 2; 3; -4]) 4 None).
+Proof. vm_compute. eexists. split; reflexivity. Qed.
